@@ -16,6 +16,9 @@ type c02Case struct {
 	Words gen.Words `json:"words"`
 	I     int32     `json:"i"`
 	Then  gen.Words `json:"then,omitempty"` // "retained": the bitmap indexed afterwards
+	// long bitmaps are named by (length, pattern) of the sweep generator instead of being listed
+	Len     int `json:"len,omitempty"`
+	Pattern int `json:"pattern,omitempty"`
 }
 
 func init() {
@@ -139,17 +142,33 @@ func popSum(ws []uint64) int64 {
 
 // c02One judges one bitmap completely; returns (cases, ones).
 func c02One(c *mc.Ctx, order int64, w []uint64, ones []int32) (evals, nontriv int64, _ []int32) {
+	return c02OneNamed(c, order, w, ones, 0, 0)
+}
+
+func c02OneNamed(c *mc.Ctx, order int64, w []uint64, ones []int32, nameLen, namePat int) (evals, nontriv int64, _ []int32) {
 	ones = onesOf(w, ones)
 	n := int32(len(ones))
 	nt := n >= 2 && int(n) < 64*len(w)
-	cs := func(i int32) c02Case { return c02Case{Words: append(gen.Words(nil), w...), I: i} }
+	cs := func(i int32) c02Case {
+		if nameLen > 0 {
+			return c02Case{I: i, Len: nameLen, Pattern: namePat}
+		}
+		return c02Case{Words: append(gen.Words(nil), w...), I: i}
+	}
+	short := func(a []int32) string {
+		if len(a) > 40 {
+			return fmt.Sprintf("%d entries %v…", len(a), a[:8])
+		}
+		return fmt.Sprint(a)
+	}
+	_ = short
 	var wantS []int32
 	for k := 0; k < len(ones); k += 32 {
 		wantS = append(wantS, ones[k])
 	}
 	s1, p1 := idxSel32(w)
 	if p1 != "" || !eqI32(s1, wantS) {
-		c.Fail(order, "IndexSelect32", "IndexSelect32", cs(0), p1+fmt.Sprint(s1), fmt.Sprint(wantS))
+		c.Fail(order, "IndexSelect32", "IndexSelect32", cs(0), p1+short(s1), short(wantS))
 	}
 	s2, r2, p2 := idxSel32R64(w)
 	wantR := make([]int32, 0, len(w)+1)
@@ -162,12 +181,13 @@ func c02One(c *mc.Ctx, order int64, w []uint64, ones []int32) (evals, nontriv in
 		wantR = append(wantR, run)
 	}
 	if p2 != "" || !eqI32(s2, wantS) || !eqI32(r2, wantR) {
-		c.Fail(order, "IndexSelect32R64", "IndexSelect32R64", cs(0), p2+fmt.Sprint(s2, r2), fmt.Sprint(wantS, wantR))
+		c.Fail(order, "IndexSelect32R64", "IndexSelect32R64", cs(0), p2+short(s2)+short(r2), short(wantS)+short(wantR))
 	}
 	evals += 2
 	end := int32(64 * len(w))
 	if p1 == "" && p2 == "" {
-		for i := int32(0); i < n; i++ {
+		bad := 0
+		for i := int32(0); i < n && bad < 4; i++ {
 			wa := ones[i]
 			wb := end
 			if i+1 < n {
@@ -175,9 +195,11 @@ func c02One(c *mc.Ctx, order int64, w []uint64, ones []int32) (evals, nontriv in
 			}
 			if a, b, p := sel32(w, s1, i); p || a != wa || b != wb {
 				c.Fail(order, "Select32", "Select32", cs(i), "", "")
+				bad++
 			}
 			if a, b, p := sel32r64(w, s2, r2, i); p || a != wa || b != wb {
 				c.Fail(order, "Select32R64", "Select32R64", cs(i), "", "")
+				bad++
 			}
 		}
 	}
@@ -317,6 +339,30 @@ func c02Run(c *mc.Ctx) {
 			c.Add("length_sweep_bitmaps", int64(4*(maxLen+1)))
 		}()
 	}
+	// lengths around powers of two up to 2^16 words (size thresholds)
+	{
+		type job struct{ l, p int }
+		var jobs []job
+		for p := uint(10); p <= 16; p++ {
+			for _, d := range []int{-1, 0, 1, 2, 3, 5, 7, 8, 9} {
+				for _, pat := range []int{1, 2, 3} {
+					jobs = append(jobs, job{1<<p + d, pat})
+				}
+			}
+		}
+		c.Par(len(jobs), func(ji int) {
+			if c.TooMany() {
+				return
+			}
+			j := jobs[ji]
+			w := c01SweepBitmap(j.l, j.p)
+			e, n, _ := c02OneNamed(c, int64(3)<<56|int64(j.l)<<8|int64(j.p), w, nil, j.l, j.p)
+			c.Count(e, n)
+			c.Expect(e)
+			c.Add("bitmaps", 1)
+			c.Add("power_of_two_length_bitmaps", 1)
+		})
+	}
 	// lane sweep
 	const chunk = 4096
 	nch := (len(lanes) + chunk - 1) / chunk
@@ -353,6 +399,9 @@ func c02Run(c *mc.Ctx) {
 
 func c02Judge(kind string, cs c02Case) (got, want string) {
 	w := []uint64(cs.Words)
+	if cs.Len > 0 {
+		w = c01SweepBitmap(cs.Len, cs.Pattern)
+	}
 	ones := onesOf(w, nil)
 	var wantS []int32
 	for k := 0; k < len(ones); k += 32 {
